@@ -34,10 +34,11 @@ ASSUMPTIONS = [
 ]
 FLOORS = {"quick": {"calls": 100000, "calls-with-special-values": 50000,
                     "calls-with-boundary-length-values": 3000,
-                    "calls-sized-on-64KiB-multiples": 40},
+                    "calls-sized-on-64KiB-multiples": 40, "calls-with-a-write-fault": 1500},
           "thorough": {"calls": 9000000, "calls-with-special-values": 4000000,
                        "calls-with-boundary-length-values": 100000,
-                       "calls-sized-on-64KiB-multiples": 4000}}
+                       "calls-sized-on-64KiB-multiples": 4000,
+                       "calls-with-a-write-fault": 150000}}
 SHARD_TIMEOUT = {"quick": 600, "thorough": 3000}
 
 FRAGS = ["a", "script", "x y", '"', "\\", '\\"', "\r", "\n", "\r\n", "\x00", "{", "}", "{5}",
@@ -263,6 +264,32 @@ def run_shard(tier, shard, res: Result):
         mark = sess.wire.mark()
         out = sess.call(op, *args)
         sent = sess.wire.sent_since(mark)
+        if args and out[0] == "ret" and len(sent) > 8 and not has_surrogate(args) \
+                and rng.random() < 0.04:
+            # the same call once more on a fresh connection whose first write times out after
+            # k octets: the call must fail, and what left is a prefix of the one command
+            srv2 = ms.Server(users={b"user": b"pw"})
+            s2, r2 = mslab.authed_session(srv2)
+            if r2 == ("ret", True):
+                srv2.canned = [rep] + [b'OK "done"\r\n'] * 3
+                k = rng.randrange(1, len(sent))
+                s2.sock.send_fault = (k, rng.choice(["timeout", "SSLError"]))
+                m2 = s2.wire.mark()
+                out2 = s2.call(op, *args)
+                sent2 = s2.wire.sent_since(m2)
+                res.count("calls-with-a-write-fault")
+                badw = None
+                if out2[0] != "exc":
+                    badw = ("write-fault-not-reported", "returned %r" % (out2[1:2],))
+                elif not sent.startswith(sent2):
+                    badw = ("bytes-after-a-write-fault", "wire holds more than a prefix of the command")
+                res.monitor("write-fault", badw is not None)
+                if badw:
+                    res.violation({"defect": badw[0], "trigger": "write-fault"},
+                                  {"op": op, "args": [a if not isinstance(a, str) else a[:80] for a in args],
+                                   "fault_after_octets": k, "sent": sent2[:300],
+                                   "without_fault": sent[:300], "outcome": repr(out2)[:200],
+                                   "detail": badw[1]})
         res.count("calls")
         trig = trigger_of(args)
         if trig != "plain":
